@@ -129,6 +129,8 @@ def c07(ctx):
       "are judged by the reference reader, re-read by the real reader, and cycled three times.")
 def c08(ctx):
     t = ctx.tier
+    mc(ctx, "Deb822WriterMC.tla", "Deb822WriterMC_write_%s.cfg" % t, what="WriteTo model: written bytes denote the paragraph (reference reader)")
+    mc(ctx, "Deb822WriterMC.tla", "Deb822WriterMC_encoder.cfg", what="Encoder model: field-less paragraphs do not eat separators")
     g1 = gen(ctx, "Deb822Gen.tla", "Deb822Gen_paras.cfg", ctx.path("paras.ndjson"), what="paragraph models")
     g2 = gen(ctx, "Deb822Gen.tla", "Deb822Gen_rw_tok_%s.cfg" % t, ctx.path("tok.ndjson"), what="token documents")
     g3 = gen(ctx, "Deb822Gen.tla", "Deb822Gen_rw_bytes_%s.cfg" % t, ctx.path("bytes.ndjson"), what="byte strings")
